@@ -57,7 +57,7 @@ Print Assumptions C13_skip_on_null_root.
    target does not resolve at that moment): both succeed with the same document value, or both fail
    at the same operation for the same reference cause *)
 Theorem C13_equals_stripped_patch : forall o p i st,
-  allow_opts o -> (has_copy p -> codec_ok) -> sgood st -> Forall op_dom p ->
+  allow_opts o -> sgood st -> Forall op_dom p ->
   let p' := strip (dia o) (sval st) p in
   match apply_from (set_allow o false) i st p' with
   | AOk st2 => exists st1, apply_from o i st p = AOk st1 /\ sval st1 = sval st2 /\ sgood st1 /\ sgood st2
@@ -69,7 +69,7 @@ Proof. exact allow_equals_stripped. Qed.
 Print Assumptions C13_equals_stripped_patch.
 
 (* the same against the reference: the run with the option on IS the reference run of the stripped patch *)
-Theorem C13_reference_of_stripped_patch : forall o, allow_opts o -> forall p, (has_copy p -> codec_ok) -> forall i i' st,
+Theorem C13_reference_of_stripped_patch : forall o, allow_opts o -> forall p i i' st,
   sgood st -> Forall op_dom p ->
   match rfc_apply_from (dia o) i' (sval st) (map den_op (strip (dia o) (sval st) p)) with
   | Done doc => exists st', apply_from o i st p = AOk st' /\ sval st' = doc /\ sgood st'
